@@ -76,6 +76,15 @@ impl<'tcx> M<'tcx> {
         }
     }
 
+    /// value of a float-constant term
+    pub fn cfloat(&self, t: Tid) -> Option<f64> {
+        match &self.terms.tab[t as usize] {
+            Term::CFloat(bits, 32) => Some(f32::from_bits(*bits as u32) as f64),
+            Term::CFloat(bits, 64) => Some(f64::from_bits(*bits as u64)),
+            _ => None,
+        }
+    }
+
     fn scalar_args(&mut self, vals: &[(V<'tcx>, Ty<'tcx>)]) -> R<Vec<Tid>> {
         let mut out = vec![];
         for (v, t) in vals {
@@ -258,6 +267,59 @@ impl<'tcx> M<'tcx> {
                 }
             }
             let a = self.scalar_args(&vals)?;
+            // arithmetic on float constants whose result is exactly representable is folded (sparse conditional constant propagation)
+            if !a.is_empty() && a.iter().all(|t| self.cfloat(*t).is_some()) {
+                let m = en.rsplit("::").next().unwrap_or("").split('<').next().unwrap_or("");
+                let xs: Vec<f64> = a.iter().map(|t| self.cfloat(*t).unwrap()).collect();
+                let width = match &self.terms.tab[a[0] as usize] {
+                    Term::CFloat(_, w) => *w,
+                    _ => 64,
+                };
+                let r = match (m, xs.as_slice()) {
+                    ("add", [x, y]) => Some(x + y),
+                    ("sub", [x, y]) => Some(x - y),
+                    ("mul", [x, y]) => Some(x * y),
+                    ("div", [x, y]) if *y != 0.0 => Some(x / y),
+                    ("neg", [x]) => Some(-x),
+                    ("recip", [x]) if *x != 0.0 => Some(1.0 / x),
+                    _ => None,
+                };
+                if let Some(r) = r {
+                    // exactness: the f64 result of exact operands must survive the round trip through the operand width,
+                    // and for division the product must give back the dividend
+                    let exact = r.is_finite() && (width == 64 || (r as f32) as f64 == r) && match (m, xs.as_slice()) {
+                        ("div", [x, y]) => r * y == *x && (r * y).is_finite(),
+                        ("recip", [x]) => r * x == 1.0,
+                        ("mul", [x, y]) => x.abs() < 1e15 && y.abs() < 1e15 && (r / y == *x || *y == 0.0),
+                        ("add", [x, y]) | ("sub", [x, y]) => x.abs() < 1e15 && y.abs() < 1e15,
+                        _ => true,
+                    };
+                    if exact && width != 64 {
+                        return Ok(V::T(self.terms.mk(Term::CFloat((r as f32).to_bits() as u128, 32))));
+                    }
+                    if exact && width == 64 && r.abs() < 1e15 && (r * 1048576.0).fract() == 0.0 {
+                        return Ok(V::T(self.terms.mk(Term::CFloat(r.to_bits() as u128, 64))));
+                    }
+                }
+            }
+            // comparisons of two float constants are decided concretely (no fork on a constant condition)
+            if a.len() == 2 && (en.contains("PartialOrd::") || en.contains("PartialEq::")) {
+                if let (Some(x), Some(y)) = (self.cfloat(a[0]), self.cfloat(a[1])) {
+                    let m = en.rsplit("::").next().unwrap_or("").split('<').next().unwrap_or("");
+                    let r = match m {
+                        "lt" => Some(x < y),
+                        "le" => Some(x <= y),
+                        "gt" => Some(x > y),
+                        "ge" => Some(x >= y),
+                        "eq" => Some(x == y),
+                        "ne" => Some(x != y),
+                        _ => None,
+                    };
+                    if let Some(r) = r {
+                        return Ok(V::Int(r as i128));
+                    }
+                }
+            }
             let t = self.terms.op(&format!("ext:{}", en), a);
             return Ok(self.symbolic_of(t, ret_ty));
         }
